@@ -27,6 +27,11 @@ type Region struct {
 	Fns   []*ssa.Function // root first
 	in    map[*ssa.Function]bool
 	sites map[*ssa.Function][]ssa.CallInstruction // call sites of each helper inside the region
+	// callees: the helpers each expanded call instruction can run (one for a static call; several for a call through a
+	// table, a field, a function parameter or an unexported interface - callees.go). opaqueToo marks calls that can
+	// also run something the region does not expand: exploration then continues past the call as well.
+	callees   map[ssa.CallInstruction][]*ssa.Function
+	opaqueToo map[ssa.CallInstruction]bool
 }
 
 type regionKey struct {
@@ -58,17 +63,96 @@ func HelperCallee(caller *ssa.Function, ci ssa.CallInstruction) *ssa.Function {
 		return nil
 	}
 	cal := ci.Common().StaticCallee()
-	if cal == nil || len(cal.Blocks) == 0 || cal.Synthetic != "" {
-		return nil
-	}
-	if cal.Parent() != nil {
-		return cal
-	}
-	cp, fp := FuncPkg(cal), FuncPkg(caller)
-	if cp == nil || fp == nil || cp != fp || token.IsExported(cal.Name()) {
+	if cal == nil || !expandable(caller, cal, false) {
 		return nil
 	}
 	return cal
+}
+
+// expandable: cal's body may be analysed as part of caller's activation. viaValue tells that cal was resolved from a
+// function value or an interface call: the synthetic adapters a method value or method expression is wrapped in are
+// then transparent (their body is the one call they stand for).
+func expandable(caller, cal *ssa.Function, viaValue bool) bool {
+	if cal == nil || len(cal.Blocks) == 0 {
+		return false
+	}
+	if cal.Synthetic != "" {
+		inst := cal.Origin() != nil && cal.Origin() != cal // an instance of a generic function is a function like any other
+		if !inst && !(viaValue && isAdapter(cal)) {
+			return false
+		}
+		if !inst {
+			return true
+		}
+	}
+	if cal.Parent() != nil {
+		return true
+	}
+	name := cal.Name()
+	if o := cal.Origin(); o != nil {
+		name = o.Name()
+	}
+	cp, fp := FuncPkg(cal), FuncPkg(caller)
+	if cp == nil || fp == nil || cp != fp || token.IsExported(name) {
+		return false
+	}
+	return true
+}
+
+// isAdapter: a thunk or bound-method wrapper - a synthetic function that only forwards to one method.
+func isAdapter(f *ssa.Function) bool {
+	if f.Synthetic == "" || len(f.Blocks) != 1 {
+		return false
+	}
+	n := 0
+	for _, in := range f.Blocks[0].Instrs {
+		if _, ok := in.(ssa.CallInstruction); ok {
+			n++
+		}
+	}
+	return n == 1
+}
+
+// resolveCallees lists the functions a call instruction can run as far as the program itself tells (static callee,
+// targets of a function value, implementers of an unexported interface), split into those the region may expand and a
+// flag telling that something else can run too.
+func (r *Region) resolveCallees(caller *ssa.Function, ci ssa.CallInstruction) (exp []*ssa.Function, other bool) {
+	switch ci.(type) {
+	case *ssa.Go, *ssa.Defer:
+		return nil, true
+	}
+	cc := ci.Common()
+	if cal := cc.StaticCallee(); cal != nil {
+		if expandable(caller, cal, false) {
+			return []*ssa.Function{cal}, false
+		}
+		return nil, true
+	}
+	var targets []*ssa.Function
+	if cc.IsInvoke() {
+		targets = implementers(caller, cc)
+	} else {
+		ts, complete := r.funcTargets(cc.Value, 0, map[ssa.Value]bool{})
+		if complete {
+			targets = ts
+		}
+	}
+	if len(targets) == 0 || len(targets) > maxCallees {
+		return nil, true
+	}
+	seen := map[*ssa.Function]bool{}
+	for _, g := range targets {
+		if seen[g] {
+			continue
+		}
+		seen[g] = true
+		if expandable(caller, g, true) {
+			exp = append(exp, g)
+		} else {
+			other = true
+		}
+	}
+	return exp, other
 }
 
 // reachesStatic reports whether from can reach to through static calls (any package), bounded.
@@ -106,39 +190,53 @@ func RegionOf(root *ssa.Function) *Region {
 	if r, ok := regionCache[regionKey{root, cycleStages}]; ok {
 		return r
 	}
-	r := &Region{Root: root, Fns: []*ssa.Function{root}, in: map[*ssa.Function]bool{root: true}, sites: map[*ssa.Function][]ssa.CallInstruction{}}
+	r := &Region{Root: root, Fns: []*ssa.Function{root}, in: map[*ssa.Function]bool{root: true}, sites: map[*ssa.Function][]ssa.CallInstruction{},
+		callees: map[ssa.CallInstruction][]*ssa.Function{}, opaqueToo: map[ssa.CallInstruction]bool{}}
 	frontier := []*ssa.Function{root}
 	recursive := map[*ssa.Function]bool{}
 	for d := 0; d < regionDepth && len(frontier) > 0; d++ {
 		var next []*ssa.Function
 		for _, f := range frontier {
 			for _, ci := range Calls(f) {
-				g := HelperCallee(f, ci)
-				if g == nil || g == root {
+				gs, other := r.resolveCallees(f, ci)
+				if len(gs) == 0 {
 					continue
 				}
-				if !r.in[g] {
-					// a function that leads back to the root is the recursion of the algorithm, not a helper of this
-					// activation - unless the rule asked for the stages of a recursive algorithm to be expanded too
-					// (WithCycleStages); the root itself is never re-entered either way
-					if !cycleStages {
-						if rec, ok := recursive[g]; ok && rec {
-							continue
-						} else if !ok {
-							recursive[g] = reachesStatic(g, root)
-							if recursive[g] {
-								continue
-							}
-						}
-					}
-					if len(r.Fns) >= regionMaxFns {
+				for _, g := range gs {
+					if g == root {
+						other = true
 						continue
 					}
-					r.in[g] = true
-					r.Fns = append(r.Fns, g)
-					next = append(next, g)
+					if !r.in[g] {
+						// a function that leads back to the root is the recursion of the algorithm, not a helper of this
+						// activation - unless the rule asked for the stages of a recursive algorithm to be expanded too
+						// (WithCycleStages); the root itself is never re-entered either way
+						if !cycleStages {
+							if rec, ok := recursive[g]; ok && rec {
+								other = true
+								continue
+							} else if !ok {
+								recursive[g] = reachesStatic(g, root)
+								if recursive[g] {
+									other = true
+									continue
+								}
+							}
+						}
+						if len(r.Fns) >= regionMaxFns {
+							other = true
+							continue
+						}
+						r.in[g] = true
+						r.Fns = append(r.Fns, g)
+						next = append(next, g)
+					}
+					r.sites[g] = append(r.sites[g], ci)
+					r.callees[ci] = append(r.callees[ci], g)
 				}
-				r.sites[g] = append(r.sites[g], ci)
+				if other {
+					r.opaqueToo[ci] = true
+				}
 			}
 		}
 		frontier = next
@@ -150,14 +248,16 @@ func RegionOf(root *ssa.Function) *Region {
 
 // HelperOf returns the helper a call instruction expands to in this region (nil when the call is an opaque step).
 func (r *Region) HelperOf(ci ssa.CallInstruction) *ssa.Function {
-	if ci.Parent() == nil {
-		return nil
+	if gs := r.callees[ci]; len(gs) == 1 && !r.opaqueToo[ci] {
+		return gs[0]
 	}
-	g := HelperCallee(ci.Parent(), ci)
-	if g == nil || g == r.Root || !r.in[g] {
-		return nil
-	}
-	return g
+	return nil
+}
+
+// HelpersOf lists the helpers a call instruction can run in this region; alsoOpaque tells that it can run something
+// the region does not expand as well.
+func (r *Region) HelpersOf(ci ssa.CallInstruction) (gs []*ssa.Function, alsoOpaque bool) {
+	return r.callees[ci], r.opaqueToo[ci]
 }
 
 // IsHelperResult reports whether v is (a result of) a call that the region expands.
@@ -256,11 +356,10 @@ func (r *Region) canon(v ssa.Value, depth int) ssa.Value {
 			// the argument at the helper's call site; with several call sites, the value they all agree on
 			var agreed ssa.Value
 			for k, cs := range r.sites[g] {
-				args := cs.Common().Args
-				if cs.Common().IsInvoke() || idx < 0 || idx >= len(args) {
+				a := ArgForParam(cs, idx)
+				if idx < 0 || a == nil {
 					return v
 				}
-				a := args[idx]
 				if len(r.sites[g]) > 1 {
 					a = r.canon(a, depth+i+1)
 				}
@@ -299,6 +398,10 @@ func (r *Region) canon(v ssa.Value, depth int) ssa.Value {
 			if x.Op != token.MUL {
 				return v
 			}
+			if w := r.uniqueFieldSource(x); w != nil {
+				v = w
+				continue
+			}
 			al, ok := x.X.(*ssa.Alloc)
 			if !ok {
 				return v
@@ -308,6 +411,12 @@ func (r *Region) canon(v ssa.Value, depth int) ssa.Value {
 				return v
 			}
 			v = vals[0]
+		case *ssa.Field:
+			w := r.uniqueFieldSource(x)
+			if w == nil {
+				return v
+			}
+			v = w
 		case *ssa.Call:
 			w := r.uniqueResult(x, 0)
 			if w == nil {
@@ -329,6 +438,32 @@ func (r *Region) canon(v ssa.Value, depth int) ssa.Value {
 		}
 	}
 	return v
+}
+
+// uniqueFieldSource: v reads a field of a struct created inside the region (LocalFieldSources), and the region stores
+// one value there (zero values and updates of the field from itself aside): that value. This is how a value handed from function to function inside a
+// small state struct is the same value as when it was handed over as a parameter.
+func (r *Region) uniqueFieldSource(v ssa.Value) ssa.Value {
+	srcs, ok := r.LocalFieldSources(v)
+	if !ok {
+		return nil
+	}
+	var only ssa.Value
+	for _, sv := range srcs {
+		if IsNilConst(sv) || IsZeroMarker(sv) {
+			continue
+		}
+		if c, isC := sv.(*ssa.Const); isC && c.Value == nil {
+			continue
+		}
+		w := Strip(sv)
+		if only == nil {
+			only = w
+		} else if only != w {
+			return nil
+		}
+	}
+	return only
 }
 
 // uniqueResult: the single non-constant value an expanded helper returns as result idx, or nil.
@@ -397,9 +532,10 @@ func parentOf(v ssa.Value) *ssa.Function {
 // ---------- interprocedural, context-sensitive reachability ----------
 
 type rframe struct {
-	call ssa.CallInstruction
-	blk  *ssa.BasicBlock
-	idx  int // index of the call in blk
+	call   ssa.CallInstruction
+	blk    *ssa.BasicBlock
+	idx    int           // index of the call in blk
+	callee *ssa.Function // the helper entered
 }
 
 type rfact struct {
@@ -569,9 +705,25 @@ func ReachFromBlock(fn *ssa.Function, blk *ssa.BasicBlock, target func(ssa.Instr
 
 var startBlock *ssa.BasicBlock // set by ReachFromBlock for the duration of one exploration
 
+// BlockReachableAvoiding reports whether some path from fn's entry arrives at the head of blk (a block of fn or of an
+// expanded helper) without crossing a blocked edge. Unlike a dominance test it sees through helpers in both directions:
+// an edge inside a helper that every successful return of the helper has crossed guards what the caller does after
+// testing the helper's result.
+func BlockReachableAvoiding(fn *ssa.Function, blk *ssa.BasicBlock, blocked map[Edge]bool) bool {
+	if len(fn.Blocks) == 0 || blk == nil {
+		return false
+	}
+	wantBlock = blk
+	defer func() { wantBlock = nil }()
+	_, ok := reachRegion(fn, nil, func(ssa.Instruction) bool { return false }, blocked, nil, nil, "", nil)
+	return ok
+}
+
+var wantBlock *ssa.BasicBlock
+
 func reachRegion(fn *ssa.Function, from ssa.Instruction, target func(ssa.Instruction) bool, blocked map[Edge]bool, barrier func(ssa.Instruction) bool, isFact func(ssa.Value) bool, known string, drop func(ssa.Instruction) bool) ([]*ssa.BasicBlock, bool) {
 	rg := RegionOf(fn)
-	defer func() { curPath = nil }()
+	defer func() { curPath, curStack = nil, nil }()
 	var items []ritem
 	seen := map[string]bool{}
 	push := func(it ritem) {
@@ -618,6 +770,10 @@ func reachRegion(fn *ssa.Function, from ssa.Instruction, target func(ssa.Instruc
 		it := items[qi]
 		cur := it.b.Parent()
 		curPath = it.pf
+		curStack = it.stack
+		if wantBlock != nil && it.b == wantBlock && it.start == 0 {
+			return path(qi), true
+		}
 		stopped := false
 		for i := it.start; i < len(it.b.Instrs) && !stopped; i++ {
 			in := it.b.Instrs[i]
@@ -654,11 +810,19 @@ func reachRegion(fn *ssa.Function, from ssa.Instruction, target func(ssa.Instruc
 				break
 			}
 			if ci, ok := in.(ssa.CallInstruction); ok {
-				if g := HelperCallee(cur, ci); g != nil && rg.in[g] && g != rg.Root && g != cur && !onStack(it.stack, g) && len(it.stack) < regionDepth {
-					ns := append(append([]rframe{}, it.stack...), rframe{ci, it.b, i})
-					push(ritem{stack: ns, b: g.Blocks[0], start: 0, facts: it.facts, k: it.k, pf: it.pf, parent: qi})
-					stopped = true
-					break
+				if gs := rg.callees[ci]; len(gs) > 0 && len(it.stack) < regionDepth {
+					entered := 0
+					for _, g := range gs {
+						if g != cur && !onStack(it.stack, g) {
+							ns := append(append([]rframe{}, it.stack...), rframe{ci, it.b, i, g})
+							push(ritem{stack: ns, b: g.Blocks[0], start: 0, facts: it.facts, k: it.k, pf: it.pf, parent: qi})
+							entered++
+						}
+					}
+					if entered == len(gs) && !rg.opaqueToo[ci] {
+						stopped = true
+						break
+					}
 				}
 			}
 			if drop != nil && it.k != "" && drop(in) {
@@ -744,7 +908,7 @@ func (x *Explorer) Run(init string) {
 		return
 	}
 	rg := RegionOf(fn)
-	defer func() { curPath = nil }()
+	defer func() { curPath, curStack = nil, nil }()
 	var items []ritem
 	seen := map[string]bool{}
 	push := func(it ritem) {
@@ -771,6 +935,7 @@ func (x *Explorer) Run(init string) {
 		it := items[qi]
 		cur := it.b.Parent()
 		curPath = it.pf
+		curStack = it.stack
 		state := it.k
 		stopped := false
 		for i := it.start; i < len(it.b.Instrs) && !stopped; i++ {
@@ -786,21 +951,34 @@ func (x *Explorer) Run(init string) {
 				stopped = true
 				break
 			}
-			var enter *ssa.Function
-			if ci, ok := in.(ssa.CallInstruction); ok {
-				if g := HelperCallee(cur, ci); g != nil && rg.in[g] && g != rg.Root && !active(it.stack, cur, g) && len(it.stack) < regionDepth {
-					enter = g
+			var enter []*ssa.Function
+			opaque := true
+			if ci, ok := in.(ssa.CallInstruction); ok && len(it.stack) < regionDepth {
+				for _, g := range rg.callees[ci] {
+					if !active(it.stack, cur, g) {
+						enter = append(enter, g)
+					}
+				}
+				if len(enter) > 0 && len(enter) == len(rg.callees[ci]) && !rg.opaqueToo[ci] {
+					opaque = false
 				}
 			}
-			ns, cont := x.Step(in, state, enter != nil)
+			if len(enter) > 0 {
+				ns, cont := x.Step(in, state, true)
+				if cont {
+					for _, g := range enter {
+						nst := append(append([]rframe{}, it.stack...), rframe{in.(ssa.CallInstruction), it.b, i, g})
+						push(ritem{stack: nst, b: g.Blocks[0], start: 0, facts: it.facts, k: ns, pf: it.pf, parent: qi})
+					}
+				}
+				if !opaque {
+					stopped = true
+					break
+				}
+			}
+			ns, cont := x.Step(in, state, false)
 			state = ns
 			if !cont {
-				stopped = true
-				break
-			}
-			if enter != nil {
-				nst := append(append([]rframe{}, it.stack...), rframe{in.(ssa.CallInstruction), it.b, i})
-				push(ritem{stack: nst, b: enter.Blocks[0], start: 0, facts: it.facts, k: state, pf: it.pf, parent: qi})
 				stopped = true
 				break
 			}
